@@ -450,7 +450,7 @@ pub fn run(rng: &mut Rng, out: &mut Out, tier: &str) {
     // the modelled half: matcher sessions with illegal calls (ids out of range, tokens not in the
     // mask, rollbacks) and the multipleOf arithmetic, replayed on the model
     let ns = if tier == "thorough" { 1500 } else { 150 };
-    let cfg = crate::c01::SessionCfg { steps: 6, extra_vocab: 20, check_all_tokens: false };
+    let cfg = crate::c01::SessionCfg { steps: 6, extra_vocab: 20, check_all_tokens: false, derived_vocab: false };
     for i in 0..ns {
         let mut r = rng.fork(0x6000_0000 + i as u64);
         crate::c01::session_case(&mut r, out, &cfg, "C20");
